@@ -747,3 +747,81 @@ pub fn toks_line(t: &Toks) -> String {
     }
     s.trim_end().to_string()
 }
+
+// ---------------------------------------------------------------------------------------------
+// input / expected output of the layout MODEL (coq/theories/Front/Layout.v)
+
+/// index of the constructor of `tk` in Layout.v
+pub fn tk_of(debug: &str) -> u32 {
+    let head: &str = debug.split(|c| c == '(' || c == ' ' || c == '{').next().unwrap_or("");
+    match head {
+        "EOF" => 0,
+        "ShebangLine" => 1,
+        "Comma" => 2,
+        "In" => 3,
+        "CloseBlock" => 4,
+        "OpenBlock" => 5,
+        "Semi" => 6,
+        "Else" => 7,
+        "RBrace" => 8,
+        "RBracket" => 9,
+        "RParen" => 10,
+        "Pipe" => 11,
+        "AttributeOpen" => 12,
+        "DocComment" => 13,
+        "Rec" => 14,
+        "Type" => 15,
+        "Let" => 16,
+        "Do" => 17,
+        "Seq" => 18,
+        "If" => 19,
+        "Match" => 20,
+        "Lambda" => 21,
+        "LBrace" => 22,
+        "LBracket" => 23,
+        "LParen" => 24,
+        "Equals" => 25,
+        "RArrow" => 26,
+        "Then" => 27,
+        "With" => 28,
+        _ => 29,
+    }
+}
+
+/// (line, column) of a byte offset as the tokenizer counts them (base/src/pos.rs Location::shift,
+/// parser/src/token.rs CharLocations): lines from 0, columns in bytes from 1.
+pub fn line_cols(src: &str) -> Vec<(u32, u32)> {
+    let mut v = Vec::with_capacity(src.len() + 1);
+    let (mut line, mut col) = (0u32, 1u32);
+    for b in src.bytes() {
+        v.push((line, col));
+        if b == b'\n' {
+            line += 1;
+            col = 1;
+        } else {
+            col += 1;
+        }
+    }
+    v.push((line, col));
+    v
+}
+
+/// `M` line for the model driver and the expected reply; None when the tokenizer itself failed.
+pub fn model_lines(src: &str) -> Option<(String, String)> {
+    let (raw, _nerr) = raw_tokens(src);
+    if raw.error.is_some() {
+        return None;
+    }
+    let lc = line_cols(src);
+    let mut m = String::from("M");
+    for (i, (code, a, b)) in raw.toks.iter().enumerate() {
+        let (l, c) = lc.get(*a as usize).copied().unwrap_or((0, 1));
+        m.push_str(&format!(" {} {} {} {} {} {}", tk_of(&raw.debug[i]), code, l, c, a, b));
+    }
+    let lay = layout_tokens(src);
+    let mut e = String::from(if lay.error.is_some() { "err" } else { "ok" });
+    for (code, a, b) in &lay.toks {
+        e.push_str(&format!(" {} {} {}", code, a, b));
+    }
+    Some((m, e))
+}
